@@ -52,3 +52,13 @@ register("C04", "exploration",
          "Bounded: miter contract (inputs = tied startpoints, output sat, both copies faithful, ties respected, sat == some compared endpoint differs under EVERY consistent valuation, every agreeing pair of valuations present, solve(m,{sat:1}) False iff no difference) on the real function.",
          "oracle = vlib.oracle; scope in evidence.bound",
          explanation="bounded stand-in of the miter contract")
+
+register("C08", "exploration",
+         "Bounded: model_count == number of startpoint valuations extending to a consistent valuation with the assumptions; signal_probability == exact fraction; the DIMACS file handed to `approxmc` (vendored exact projected counter with independent parser) has exactly that many projected models.",
+         "oracle = brute-force enumeration (vlib.oracle); `approxmc` replaced by /verif/shim/bin/approxmc",
+         explanation="bounded stand-in of the C08 contracts")
+
+register("C20", "exploration",
+         "Bounded: lint raises ValueError exactly when a documented rule (per flags) is violated - compared with a spec predicate written from the property statement - on exhaustive tiny ill-formed graphs and random ones, 16 flag combinations; generators' outputs lint-clean.",
+         "oracle = vlib.spec.lint_violations; scope in evidence.bound",
+         explanation="bounded stand-in of the lint contract")
